@@ -11,7 +11,78 @@ property is decided on the implementation's own observations.
 from lib import vlib
 from lib.vlib import cnat, cbool, clist, copt
 
+import os
+import re
+
 ID = "C21"
+GEN = os.path.join(vlib.COQ, "C21", "Gen.v")
+
+
+class Untranslatable(Exception):
+    pass
+
+
+def translate_gen():
+    """error paths of direct_from_buffer: (tag, after PyObject_GetBuffer succeeded, label releases)"""
+    src = open(os.path.join(vlib.REPO, "src", "c", "_cffi_backend.c")).read()
+    m = re.search(r"^static PyObject \*direct_from_buffer\(.*?^\}", src, re.M | re.S)
+    if not m:
+        raise Untranslatable("direct_from_buffer not found")
+    body = re.sub(r"/\*.*?\*/", " ", m.group(0), flags=re.S)
+    g = re.search(r"if \(_my_PyObject_GetContiguousBuffer\(x, view, require_writable\) < 0\)\s*goto (error\d);", body)
+    if not g:
+        raise Untranslatable("call of _my_PyObject_GetContiguousBuffer")
+    labels = re.search(r"\n error2:\s*(.*?)\n error1:\s*(.*?)return NULL;", body, re.S)
+    if not labels:
+        raise Untranslatable("labels error2 / error1")
+    releases = {"error2": "PyBuffer_Release(view)" in labels.group(1) or "PyBuffer_Release(view)" in labels.group(2),
+                "error1": "PyBuffer_Release(view)" in labels.group(2)}
+    if "PyObject_Free(view)" not in labels.group(2):
+        raise Untranslatable("error1 does not free the view")
+    paths = [(0, False, releases[g.group(1)])]
+    for mm in re.finditer(r"goto (error\d);", body):
+        if mm.start() <= g.end():
+            continue
+        before = body[max(0, mm.start() - 600):mm.start()]
+        marks = {1: before.rfind("buffer is too small"), 2: before.rfind("cannot be computed"),
+                 3: max((x.end() for x in re.finditer(r"if \(cd == NULL\)", before)), default=-1)}
+        tag = max(marks, key=lambda t: marks[t])
+        if marks[tag] < 0:
+            raise Untranslatable("unclassified failure path before %r" % mm.group(0))
+        if mm.group(1) not in releases:
+            raise Untranslatable("unknown label " + mm.group(1))
+        paths.append((tag, True, releases[mm.group(1)]))
+    if sorted(t for t, _, _ in paths) != [0, 1, 2, 3]:
+        raise Untranslatable("failure paths found: %r" % (paths,))
+    return ("""(* C21/Gen.v — REGENERATED on every run by tools/props/c21.py:regen from
+     /repo/src/c/_cffi_backend.c   (direct_from_buffer: every `goto errorN`, whether it is taken after
+                                    PyObject_GetBuffer succeeded, and whether label errorN passes
+                                    PyBuffer_Release(view))
+   Do not edit: this committed copy is the snapshot used when the translator fails. *)
+From Coq Require Import List.
+Import ListNotations.
+
+(* (tag, taken after the buffer was obtained, the label releases the buffer)
+   tags: 0 = PyObject_GetBuffer / contiguity failed, 1 = buffer too small, 2 = item size 0, 3 = no memory for the cdata *)
+Definition gen_frombuf_paths : list (nat * bool * bool) :=
+  [%s].
+""" % "; ".join("(%d, %s, %s)" % (t, cbool(a), cbool(r)) for t, a, r in paths))
+
+
+def regen(ctx):
+    try:
+        text = translate_gen()
+    except (Untranslatable, OSError) as e:
+        ctx.translator("C21/Gen.v", "fallback: %s" % e)
+        return
+    old = open(GEN).read() if os.path.exists(GEN) else None
+    if old == text:
+        ctx.translator("C21/Gen.v", "unchanged")
+    else:
+        with vlib.CoqLock():
+            with open(GEN, "w") as f:
+                f.write(text)
+        ctx.translator("C21/Gen.v", "regenerated")
 
 CREATORS = {"ONew": ["KOwn"], "ONewStruct": ["KOwn", "KStructPtr"], "OAllocNew": ["KRaw", "KGcp"],
             "OAllocNewStruct": ["KRaw", "KGcp", "KStructPtr"], "ONewPy": ["KPy"]}
@@ -88,6 +159,8 @@ class Mirror:
                 self.src_of[f] = op[1]
                 return [f], True
             return [], False
+        if t == "OFromBufferFail":
+            return [], False
         if t == "ONewHandle":
             if self.usable(op[1]):
                 h = self.new("KHandle", 1)
@@ -149,6 +222,11 @@ def gen_history(rng, length, template=None):
             xs = held(["KPy"])
             if xs:
                 op = ["OFromBuffer", rng.choice(xs), m.fresh_addr()]
+        elif r < 0.935:
+            xs = held(["KPy"])
+            if xs:
+                tag = rng.choice([0, 1, 1])
+                op = ["OFromBufferFail", rng.choice(xs), tag, rng.randrange(2 if tag == 1 else 3)]
         elif r < 0.96:
             op = ["ONewHandle", rng.choice(h), m.fresh_addr()]
         else:
@@ -169,7 +247,8 @@ def gen_history(rng, length, template=None):
     return ops
 
 
-TEMPLATES = ["handle", "inner-gc", "frombuf", "handle-live-dtor", "inner-gc-released", "two-wrappers"]
+TEMPLATES = ["handle", "inner-gc", "frombuf", "handle-live-dtor", "inner-gc-released", "two-wrappers",
+             "frombuf-fail"]
 
 
 def cycle_template(rng, m, name):
@@ -180,6 +259,15 @@ def cycle_template(rng, m, name):
     base = len(m.kind)
     y = base
     ops = [["ONewPy", m.fresh_addr()]]
+    if name == "frombuf-fail":
+        # failing from_buffer calls before, between and after successful ones on the same source
+        f1, f2 = base + 1, base + 2
+        fails = [["OFromBufferFail", y, 1, 0], ["OFromBufferFail", y, 1, 1], ["OFromBufferFail", y, 0, 0],
+                 ["OFromBufferFail", y, 0, 1], ["OFromBufferFail", y, 0, 2]]
+        rng.shuffle(fails)
+        ops += [fails[0], ["OFromBuffer", y, m.fresh_addr()], fails[1], ["OFromBuffer", y, m.fresh_addr()], fails[2],
+                ["ORelease", f1, rng.random() < 0.5], fails[3], ["ODrop", f2], fails[4], ["ODrop", f1], ["ODrop", y]]
+        return ops
     if name in ("handle", "handle-live-dtor"):
         h, w = base + 1, base + 2
         ops += [["ONewHandle", y, m.fresh_addr()], ["OGc", h, m.fresh_addr(), None]]
@@ -239,6 +327,8 @@ def op_literal(op):
         return "ORelease %d" % op[1]
     if t in ("OAlias", "OGcNone", "OHold", "ODrop", "OFromHandle"):
         return "%s %d" % (t, op[1])
+    if t == "OFromBufferFail":
+        return "OFromBufferFail %d %d" % (op[1], op[2])
     if t in ("OSetRef", "OFromBuffer", "ONewHandle"):
         return "%s %d %d" % (t, op[1], op[2])
     raise ValueError(op)
@@ -308,6 +398,8 @@ def check_history(ops, r):
                            % (t, op, st, p))
         if mem[t]:
             bad.append("step %d %r: struct memory changed under a live pointer/alias: %r" % (t, op, mem[t]))
+        if op[0] == "OFromBufferFail" and results[t].get("unexpected_success"):
+            bad.append("step %d %r: from_buffer was expected to fail but returned an object" % (t, op))
         if results[t].get("from_handle_identity") is False:
             bad.append("step %d %r: from_handle did not return the object given to new_handle" % (t, op))
         prev = obs
